@@ -113,18 +113,18 @@ func (s *Seq) fail(tag, sig, format string, args ...interface{}) {
 // on what follows (a Repair that drops the constraints is seen by the layout
 // oracle first, and by the uniqueness oracle at the next duplicate).
 func (s *Seq) softOracle(tag string, f func()) {
-	if s.Prop == "" || s.V != nil || OwnsTag(s.Prop, tag) {
+	if s.Prop == "" || s.V != nil || (tag != "" && OwnsTag(s.Prop, tag)) {
 		f()
 		return
 	}
 	defer func() {
 		if r := recover(); r != nil {
-			if _, ok := r.(stopRun); ok && s.V != nil && s.V.Tag == tag {
+			if _, ok := r.(stopRun); ok && s.V != nil && observational[s.V.Tag] && !OwnsTag(s.Prop, s.V.Tag) {
 				if s.Foreign == nil {
 					s.Foreign = s.V
 				}
+				s.stat("foreign-divergence-continued:" + s.V.Tag)
 				s.V = nil
-				s.stat("foreign-divergence-continued:" + tag)
 				return
 			}
 			panic(r)
@@ -132,6 +132,10 @@ func (s *Seq) softOracle(tag string, f func()) {
 	}()
 	f()
 }
+
+// observational oracles compare what the handle or the disk shows with the
+// model and change neither: the history can go on after one of them diverged.
+var observational = map[string]bool{"layout": true, "read": true, "search": true, "order": true, "case": true, "control": true, "args": true}
 
 // guard runs f, converting a panic of the code under test into a violation.
 func (s *Seq) guard(f func()) {
